@@ -120,6 +120,9 @@ RefOK(ev) ==
   IF ev.err THEN Check("ref_error_only_if_unresolvable", ~NameKnown(nodes, ev.name))
   ELSE /\ Check("ref_name_resolvable", NameKnown(nodes, ev.name))
        /\ Check("ref_output_parses", ev.parse_ok)
+       \* the path is evaluated from the node the cell belongs to: when the cell text identifies its row uniquely, the context
+       \* the substitution used must be that row's node
+       /\ Check("ref_context_is_the_owning_row", (ev.owner # <<>> /\ ev.ctxok) => ev.ctx = ev.owner)
        /\ Check("ref_up_within_context", ev.e.abs \/ ev.e.up <= Len(ev.ctx))
        /\ Check("ref_reaches_target", Resolve(ev.ctx, ev.e) = XPathOf(nodes, ev.name))
        /\ Check("ref_relative_inside_shared_repeat",
